@@ -48,6 +48,8 @@ structure Conn where
   descs : List Desc
   fut : List Byte
   k : Nat
+  granted : Nat := 0       -- results the service's streams for this client were ever allowed to hand over (initial + produced)
+  used : Nat := 0          -- results the server has taken from them
 deriving Inhabited
 
 structure S where
@@ -157,7 +159,7 @@ def iter (C : Consts) (sizes : Nat → Nat) (s : S) : Option S :=
       match s.streams[idx]? with
       | none => none
       | some (items, c0) =>
-        let c : Conn := { c0 with credit := c0.credit - 1 }
+        let c : Conn := { c0 with credit := c0.credit - 1, used := c0.used + 1 }
         let s := { s with lastStream := some idx }
         match items with
         | [] => some { s with streams := swapRemove s.streams idx, conns := s.conns ++ [c] }
@@ -173,7 +175,7 @@ def arriveC (b : List Byte) (c : Conn) : Conn :=
   { c with net := { c.net with avail := c.net.avail ++ b }, fut := c.fut.drop b.length }
 def closeC (c : Conn) : Conn := { c with net := { c.net with closed := true } }
 /-- the service makes `n` more results of this client's reply stream available -/
-def produceC (n : Nat) (c : Conn) : Conn := { c with credit := c.credit + n }
+def produceC (n : Nat) (c : Conn) : Conn := { c with credit := c.credit + n, granted := c.granted + n }
 
 def mapConns (f : Conn → Conn) (s : S) : S :=
   { s with conns := s.conns.map f, listenQ := s.listenQ.map f,
